@@ -35,7 +35,7 @@ Theorems here (all programs of the structured fragment, all machines, all fuel):
     theorem: the VM never reaches the end of such a loop's code either (it would have to agree with a
     completed evaluation).
 -/
-import XehModel.Proofs.FlowSim
+import XehModel.Proofs.FlowSim2
 import XehModel.Model.Structured
 import XehModel.Model.ParseS
 import XehModel.Proofs.StructSim
@@ -220,7 +220,7 @@ example : WFS (.doLoop 0 1 .skip) false false = true ∧ size (.doLoop 0 1 .skip
     (({ code := codeOf (.doLoop 0 1 .skip) } : Mach).ctx.ip = 0) ∧ WF ({ code := codeOf (.doLoop 0 1 .skip) } : Mach) :=
   ⟨rfl, by decide, rfl, ⟨Nat.le_refl _, Nat.le_refl _, Nat.le_refl _, Nat.le_refl _⟩⟩
 
-/-! ### link 2: what the flow-stack compiler emits (PARTIAL: stage A) -/
+/-! ### link 2: what the flow-stack compiler emits (PARTIAL: everything but definitions and locals) -/
 
 open Xeh.Compile in
 /-- `parseS` only answers for well-formed, placed programs -/
@@ -237,19 +237,22 @@ theorem parseS_wf (toks : List Tok) (ps ps' : PState) (st : Stmt) (h : parseS to
   · cases h
 
 open Xeh.Compile in
-/-- **the flow-stack compiler emits `compileS (parseS toks)`** — PARTIAL: for token lists that use none of `break`,
-    `case`/`of`, `:` and `local` (every nesting of literals, constants, variables, calls of words defined earlier,
-    native words, if/else/then, begin/until, begin/while/repeat, begin/repeat, do/loop, foreach, `[ ]`, `{ }`,
-    `^{ ^}`, `var`, `!`, `defined`, format words). The compiler starts on a state that matches the parser's
-    (`Structured.Match`): same dictionary and heap size, nothing pending, no heap limit, outside a meta block.
-    FULL STATEMENT (not yet proved): the same without the restriction on the words; programs with `break`, `case`,
-    definitions and locals are covered by per-program translation validation in the driver (`C01 struct`). -/
+/-- **the flow-stack compiler emits `compileS (parseS toks)`** — PARTIAL: for token lists that neither start a
+    definition nor declare a local (`:` and `local`).  Everything else of the structured fragment is covered, in every
+    nesting: literals, constants, variables, calls of words defined earlier, native words, if/else/then,
+    case/of/endof/endcase, begin/until, begin/while/repeat, begin/repeat, do/loop, foreach, `break` in every kind of
+    loop (its jump is emitted with distance 0, stays on the pending-flow stack across the conditionals and case arms
+    that enclose it, and is patched — or turned into a `Break` opcode — when the loop closes), `[ ]`, `{ }`, `^{ ^}`,
+    `var`, `!`, `defined`, format words.  The compiler starts on a state that matches the parser's
+    (`Structured.Match2`: same dictionary and heap size, no heap limit, outside a meta block) with nothing pending.
+    FULL STATEMENT (not yet proved): the same without the restriction; programs with definitions and locals are
+    covered by per-program translation validation in the driver (`C01 struct`). -/
 theorem flow_compiler_emits_compileS_partial (toks : List Tok) (ps ps' : PState) (st : Stmt) (s0 : CState)
-    (hp : parseS toks ps = some (st, ps')) (hnb : Structured.NoBad ps.dict toks) (hm : Structured.Match ps true s0)
-    (hpc : s0.code.length = ps.pc) :
+    (hp : parseS toks ps = some (st, ps')) (hnb : Structured.NoBad2 ps.dict toks) (hm : Structured.Match2 ps s0)
+    (hfl : s0.flows = []) (hhid : s0.hiddenFlows = 0) (hpc : s0.code.length = ps.pc) :
     ∃ s, compileToks toks 0 s0 = .ok s ∧ s.code = s0.code ++ codeOf st ∧ s.dmap = s0.dmap ++ dmapOf st ∧
       s.dict = ps'.dict ∧ s.heapLen = ps'.heapLen ∧ s.flows = [] :=
-  Structured.flow_compiler_agrees toks ps ps' st s0 hp hnb hm hpc
+  Structured.flow_compiler_agrees2 toks ps ps' st s0 hp hnb hm hfl hhid hpc
 
 open Xeh.Compile in
 /-- **end to end for that fragment**: compile the tokens with the flow-stack compiler on an idle machine with no
@@ -259,7 +262,7 @@ theorem source_means_what_it_says_partial (np : String → Option Prog) (toks : 
     (st : Stmt) (ps' : PState)
     (hip : m.ctx.ip = 0) (hwf : WF m) (hlim : m.insnLimit = none)
     (hp : parseS toks { dict := m.dict, heapLen := m.heap.length } = some (st, ps'))
-    (hnb : Structured.NoBad m.dict toks) (hsize : size st < 2^62) :
+    (hnb : Structured.NoBad2 m.dict toks) (hsize : size st < 2^62) :
     ∃ s, compileToks toks 0 { dict := m.dict, heapLen := m.heap.length } = .ok s ∧ s.dmap = dmapOf st ∧
       let m1 : Mach := { m with code := s.code, dict := s.dict,
                                 heap := m.heap ++ List.replicate (s.heapLen - m.heap.length) Cell.nil }
@@ -274,20 +277,21 @@ theorem source_means_what_it_says_partial (np : String → Option Prog) (toks : 
       | .timeout => True := by
   obtain ⟨hw, hpl⟩ := parseS_wf toks _ _ st hp
   obtain ⟨s, hc, hcode, hdm, _, _, _⟩ := flow_compiler_emits_compileS_partial toks _ ps' st
-    { dict := m.dict, heapLen := m.heap.length } hp hnb
-    ⟨rfl, rfl, rfl, rfl, fun _ => ⟨rfl, rfl⟩, rfl, rfl⟩ rfl
+    { dict := m.dict, heapLen := m.heap.length } hp hnb ⟨rfl, rfl, rfl, rfl, rfl⟩ rfl rfl rfl
   refine ⟨s, hc, by simpa using hdm, ?_⟩
   exact compiled_code_means_what_the_source_says np st f _ hw hpl hsize (by simpa using hcode) hip
     ⟨hwf.ds, hwf.rs, hwf.ls, hwf.ss⟩ hlim
 
 open Xeh.Compile in
-/-- non-vacuity: `3 0 do 1 if 2 else 3 then loop` is accepted by `parseS` and uses no excluded word (the hypotheses
-    of the two theorems above; `Match` holds for the empty compiler state by `rfl`) -/
+/-- non-vacuity: `5 0 do I 3 == if break then 1 case 1 of 7 endof endcase loop` — a `break` inside a conditional
+    inside a counted loop, and a case with one arm — is accepted by `parseS` and uses neither `:` nor `local` (the
+    hypotheses of the two theorems above; `Match2` holds for the empty compiler state by `rfl`) -/
 example :
     let dict : List (String × Entry) := [("do", .native true "do"), ("loop", .native true "loop"), ("if", .native true "if"),
-      ("else", .native true "else"), ("then", .native true "then")]
-    let toks : List Tok := [.lit (.int 3), .lit (.int 0), .word "do", .lit (.int 1), .word "if", .lit (.int 2), .word "else",
-      .lit (.int 3), .word "then", .word "loop"]
-    (parseS toks { dict := dict, heapLen := 0 }).isSome = true ∧ Structured.noBadB dict toks = true := by decide +kernel
+      ("then", .native true "then"), ("break", .native true "break"), ("case", .native true "case"), ("of", .native true "of"),
+      ("endof", .native true "endof"), ("endcase", .native true "endcase"), ("I", .native false "I"), ("==", .native false "==")]
+    let toks : List Tok := [.lit (.int 5), .lit (.int 0), .word "do", .word "I", .lit (.int 3), .word "==", .word "if", .word "break",
+      .word "then", .lit (.int 1), .word "case", .lit (.int 1), .word "of", .lit (.int 7), .word "endof", .word "endcase", .word "loop"]
+    (parseS toks { dict := dict, heapLen := 0 }).isSome = true ∧ Structured.noBad2B dict toks = true := by decide +kernel
 
 end Xeh.C01
